@@ -107,6 +107,9 @@ func checkC19(r *Run) propMeta {
 
 	// ---- R5 resume gate ---------------------------------------------------------------------------
 	checkResumeGate(r, p, cg, decls)
+	checkResumeRemovesTemporariesOnly(r, p, cg, decls)
+	checkArmsUseParameter(r, "C19-R10-arms-use-parameter", p)
+	checkTwinBindings(r, "C19-R11-twin-bindings", p)
 
 	// ---- R6 identity completeness -------------------------------------------------------------------
 	checkIdentityCompleteness(r, p, decls)
